@@ -91,13 +91,23 @@ def burstState (T : Tree) (s : State) (ids : List Nat) (i v : Nat) : State :=
   let s1 := (ids.take i).foldl (fun s b => (deliver T [] s b).1) s
   (List.range v).foldl (fun s _ => (verifyHead T s).1) s1
 
+
+/-- C01's state line without its block-status field `st=` (added to C01's protocol in round 6; C08's
+    harness prints the older line, and crash observations are matched against it) -/
+def dropSt (l : String) : String :=
+  match l.splitOn " st=" with
+  | a :: _ => a
+  | [] => l
+
+def stateLine8 (ds : List Decl) (s : State) (o : Out) : String := dropSt (stateLine ds s o)
+
 def step (d : St) (ts : List String) : St × String :=
   match ts with
   | ["burstcrash", l, i, v] =>
     match parseNatList? l, parseNat? i, parseNat? v with
     | some l, some i, some v =>
       let c := crash (burstState (treeOf d.decls) (getState d) l i v)
-      ({ d with st := some c }, stateLine d.decls c [])
+      ({ d with st := some c }, stateLine8 d.decls c [])
     | _, _, _ => (d, "bad-op")
   | ["longchain", l] =>
     match parseNatList? l with
@@ -117,26 +127,26 @@ def step (d : St) (ts : List String) : St × String :=
       -- the persisted state after each prefix of the re-verification
       let cands := (List.range (s1.queue.length + 1)).map fun v =>
         crash ((List.range v).foldl (fun s _ => (verifyHead T s).1) s1)
-      match cands.find? (fun c => stateLine d.decls c [] == want) with
-      | some c => ({ d with st := some c }, stateLine d.decls c [])
-      | none => ({ d with st := some s0 }, stateLine d.decls s0 [])
+      match cands.find? (fun c => stateLine8 d.decls c [] == want) with
+      | some c => ({ d with st := some c }, stateLine8 d.decls c [])
+      | none => ({ d with st := some s0 }, stateLine8 d.decls s0 [])
     | _, _ => (d, "bad-op")
   | ["crashsome", i, obs] =>
     match parseNat? i with
     | some i =>
       let cands := (microStates (treeOf d.decls) (getState d) i).map crash
       let want := obs.replace "|" " "
-      match cands.find? (fun c => stateLine d.decls c [] == want) with
-      | some c => ({ d with st := some c }, stateLine d.decls c [])
+      match cands.find? (fun c => stateLine8 d.decls c [] == want) with
+      | some c => ({ d with st := some c }, stateLine8 d.decls c [])
       | none =>
         match cands with
-        | c :: _ => ({ d with st := some c }, stateLine d.decls c [])
+        | c :: _ => ({ d with st := some c }, stateLine8 d.decls c [])
         | [] => (d, "bad-op")
     | none => (d, "bad-op")
-  | ["requeued", m, o] => C01.step d ["scan", m, o]
+  | ["requeued", m, o] => let r := C01.step d ["scan", m, o]; (r.1, dropSt r.2)
   | ["consts"] =>
     (d, s!"mel={maxEpochLength} expired={Gen.Chain.EXPIRED_EPOCH} bdw={Gen.Chain.BLOCK_DOWNLOAD_WINDOW}")
-  | _ => C01.step d ts
+  | _ => let r := C01.step d ts; (r.1, dropSt r.2)
 
 /-! ## the proposal table next to the pipeline state -/
 
